@@ -28,7 +28,13 @@ GENERIC = (
     "(integer radii, Pythagorean offsets); strip/tile processing of very large masks; results that alias internal arrays; annulus holes with equal "
     "axes; sky annulus vs its two outlines; properties of hand-written DS9 text dropped on re-serialisation; strings that look like template "
     "placeholders (RAD, FMT, {0}); points exactly on pixel edges (round-half-even); grouping of nested compounds; keys valid in both meta and "
-    "visual; one-shot iterators as list arguments; combinations of matplotlib keywords; strings containing the closing delimiter.")
+    "visual; one-shot iterators as list arguments; combinations of matplotlib keywords; strings containing the closing delimiter; a compound of a region with itself / concentric "
+    "operands; optional arguments documented as ignored (`subpixels` with mode='exact'); shapes much smaller than a pixel; zero-size N-D queries; "
+    "polygons that revisit a vertex; parse -> edit -> serialise histories; empty strings; overwriting a longer file; warnings on `write()` vs "
+    "`serialize()`; a failed write that leaves a file; user tables with upper-case names / column descriptions; DS9 GUI flags (rotate, move, fixed) "
+    "affecting geometry; `copy(field=X)` adopting X's meta; globally enabled astropy unit equivalencies; `__setitem__` / slice assignment on "
+    "Regions; a caller keyword whose value is 'green'; reassigned regular-polygon attributes; boolean Python lists as index; integer-typed "
+    "coordinates in rotations; integer count weights; WCS.pixel_shape.")
 
 LEFT = (
     "Think about what is LEFT: e.g. the order in which two independent features are applied; behaviour at the exact edge of a documented domain "
